@@ -153,6 +153,8 @@ def run():
         inputs.append(("nested", spec, col, al, None, None))
     for _ in range(60000 if thorough else 7000):
         spec = cc.gen_doc(ck.rng, ALL_MODES, p_noalpha=0.04)
+        if ck.rng.random() < 0.2:  # 16 / 32-bit documents, mostly with values off the 8-bit lattice
+            spec = cc.to_depth(ck.rng, spec, ck.rng.choice([16, 32]), ck.rng.random() < 0.25)
         col, al = cc.gen_backdrop(ck.rng, cc.NCH[spec["mode"]])
         inputs.append(("random", spec, col, al, None, None))
         if ck.rng.random() < 0.15:
@@ -165,6 +167,8 @@ def run():
     model_inputs = []
     for _ in range(12000 if thorough else 1200):
         spec = cc.gen_doc(ck.rng, MODEL_MODES, p_noalpha=0.04)
+        if ck.rng.random() < 0.25:  # 16 / 32-bit documents on the 8-bit lattice: the model's planes are bytes
+            spec = cc.to_depth(ck.rng, spec, ck.rng.choice([16, 32]), True)
         col, al = cc.gen_backdrop(ck.rng, cc.NCH[spec["mode"]])
         W, H = spec["size"]
         vp = None
@@ -177,6 +181,7 @@ def run():
     for stream, spec, col, al, vp, root in inputs + model_inputs:
         ck.count("stream:" + stream)
         ck.count("mode:" + spec["mode"] + ("+A" if spec["docalpha"] else ""))
+        ck.count("depth:%d" % spec.get("depth", 8))
         fl, (c, s, a), skipped = safe_evaluate(spec, col, al, vp, root)
         ck.count("pixels-skipped-near-blend-discontinuity", skipped)
         feats = cc.features(spec)
@@ -224,7 +229,8 @@ def run():
         "clipping runs have no PDF counterpart: the reference paints the clip layers over (base colour, base alpha) as a non-isolated backdrop and keeps the base's shape and alpha",
         "dissolve is excluded (the code maps it to normal); soft light uses the Photoshop formula accepted by C12",
         "a pixel layer without a transparency plane (finding F-C11-1, fixed by a5674d4) is given to the Coq model as an all-255 plane",
-        "not modelled / not generated: vector masks, strokes, layer effects, fills, adjustment layers, smart objects, type layers, ICC and the PIL conversion of composite_pil, depths 16/32",
+        "16 / 32-bit documents: the oracle uses arbitrary plane values; the Coq model's planes are bytes, so the model stream uses 16 / 32-bit documents whose values lie on the 8-bit lattice (v*257, float32(v/255)) - the depth-dependent decoding of the implementation is exercised, the kernel is depth-independent",
+        "not modelled / not generated: vector masks, strokes, layer effects, fills, adjustment layers, smart objects, type layers, ICC and the PIL conversion of composite_pil",
     ]
     return ck.finish()
 
